@@ -78,6 +78,12 @@ public:
                 first_channel_weights_.push_back(weight);
             }
         }
+        else
+        {
+            // the weights the first iteration was performed with are stored in the first result;
+            // keep them, so that a rollback to the very beginning starts from the same weights
+            first_channel_weights_ = this->results().front().channel_weights();
+        }
     }
 
     /// Returns the channel weights for the next iteration.
